@@ -36,6 +36,7 @@ import (
 	standardaggregator "github.com/attestantio/vouch/services/synccommitteeaggregator/standard"
 	"github.com/attestantio/vouch/services/synccommitteemessenger"
 	standardmessenger "github.com/attestantio/vouch/services/synccommitteemessenger/standard"
+	standardsubscriber "github.com/attestantio/vouch/services/synccommitteesubscriber/standard"
 	"github.com/rs/zerolog"
 	e2wtypes "github.com/wealdtech/go-eth2-wallet-types/v2"
 
@@ -102,6 +103,38 @@ type Case struct {
 	StartSlot    uint64 `json:"start_slot"`
 	StartOffsetS int    `json:"start_offset_s"`
 	EndSlot      uint64 `json:"end_slot"`
+	// SubFaults: the beacon node fails every sync committee subscription submission made for these periods.
+	SubFaults []SubFault `json:"sub_faults,omitempty"`
+	// HeadFaultSlots: the head root provider fails every request made during these slots.
+	HeadFaultSlots []uint64 `json:"head_fault_slots,omitempty"`
+}
+
+// SubFault makes the subscription submission for one period fail.
+type SubFault struct {
+	Period uint64 `json:"period"`
+	Kind   string `json:"kind"` // plain | api-400 | api-503 | context
+}
+
+func (c *Case) headFault(slot uint64) bool {
+	for _, s := range c.HeadFaultSlots {
+		if s == slot {
+			return true
+		}
+	}
+	return false
+}
+
+// faultError builds an error as the go-eth2-client HTTP service returns it.
+func faultError(kind, endpoint string) error {
+	switch kind {
+	case "api-400":
+		return errors.Join(errors.New("failed to request "+endpoint), &api.Error{Method: "POST", Endpoint: endpoint, StatusCode: 400, Data: []byte(`{"code":400,"message":"bad request"}`)})
+	case "api-503":
+		return errors.Join(errors.New("failed to request "+endpoint), &api.Error{Method: "POST", Endpoint: endpoint, StatusCode: 503, Data: []byte(`{"code":503,"message":"beacon node is syncing"}`)})
+	case "context":
+		return errors.Join(errors.New("failed to call POST endpoint"), context.DeadlineExceeded)
+	}
+	return errors.New("no client is active")
 }
 
 func (c *Case) committeeOfPeriod(p uint64) []Seat {
@@ -175,6 +208,8 @@ type world struct {
 	capSubmits  []capSubmit
 	dutyQueries []dutyQuery
 	subscribes  int
+	subFailures int
+	headFails   int
 	draining    bool
 
 	accounts map[uint64]e2wtypes.Account
@@ -290,6 +325,12 @@ func (w *world) BeaconBlockRoot(_ context.Context, opts *api.BeaconBlockRootOpts
 		return nil, errors.New("only head is scripted")
 	}
 	cs := uint64(w.clock.CurrentSlot())
+	if w.c.headFault(cs) {
+		w.mu.Lock()
+		w.headFails++
+		w.mu.Unlock()
+		return nil, faultError("api-503", "/eth/v1/beacon/blocks/head/root")
+	}
 	w.mu.Lock()
 	k := 0
 	for _, h := range w.heads {
@@ -344,15 +385,23 @@ func (w *world) SubmitSyncCommitteeContributions(_ context.Context, caps []*alta
 	return nil
 }
 
-func (*world) SubmitSyncCommitteeSubscriptions(context.Context, []*apiv1.SyncCommitteeSubscription) error {
-	return nil
-}
-
-// Subscribe is the sync committee subscriber of the controller.
-func (w *world) Subscribe(context.Context, phase0.Epoch, []*apiv1.SyncCommitteeDuty) error {
+// SubmitSyncCommitteeSubscriptions is the beacon node end of the real sync committee subscriber.
+func (w *world) SubmitSyncCommitteeSubscriptions(_ context.Context, subs []*apiv1.SyncCommitteeSubscription) error {
 	w.mu.Lock()
 	w.subscribes++
 	w.mu.Unlock()
+	if len(subs) == 0 || subs[0] == nil || subs[0].UntilEpoch == 0 {
+		return nil
+	}
+	period := (uint64(subs[0].UntilEpoch) - 1) / w.c.Chain.EpochsPerPeriod
+	for _, f := range w.c.SubFaults {
+		if f.Period == period {
+			w.mu.Lock()
+			w.subFailures++
+			w.mu.Unlock()
+			return faultError(f.Kind, "/eth/v1/validator/sync_committee_subscriptions")
+		}
+	}
 	return nil
 }
 
@@ -637,8 +686,17 @@ func runWorld(c *Case) (*world, error) {
 		ra.inner = agg
 	}
 
+	subscriber, err := standardsubscriber.New(ctx,
+		standardsubscriber.WithLogLevel(zerolog.Disabled),
+		standardsubscriber.WithMonitor(nullmetrics.New()),
+		standardsubscriber.WithSyncCommitteeSubmitter(w),
+	)
+	if err != nil {
+		return nil, fmt.Errorf("subscriber: %w", err)
+	}
+
 	w.baseG = runtime.NumGoroutine()
-	_, err := controller.New(ctx,
+	_, err = controller.New(ctx,
 		controller.WithLogLevel(zerolog.Disabled),
 		controller.WithMonitor(nullmetrics.New()),
 		controller.WithSpecProvider(w),
@@ -647,7 +705,7 @@ func runWorld(c *Case) (*world, error) {
 		controller.WithProposerDutiesProvider(w),
 		controller.WithAttesterDutiesProvider(w),
 		controller.WithSyncCommitteeDutiesProvider(w),
-		controller.WithSyncCommitteeSubscriber(w),
+		controller.WithSyncCommitteeSubscriber(subscriber),
 		controller.WithEventsProvider(w),
 		controller.WithValidatingAccountsProvider(w),
 		controller.WithProposalsPreparer(mockproposalpreparer.New()),
